@@ -237,6 +237,9 @@ class Injector:
         self.exc = None
         self.fired = None
         self.hits = {}
+        self.first_hits = None
+        self._seen_lines = set()
+        self.last_first_hits = []
         self._pkg = os.path.realpath(os.path.join(REPO, "adcgen"))
         self.mon.use_tool_id(self.TOOL, "verif-sim")
         self.mon.register_callback(self.TOOL, self.mon.events.LINE, self._cb)
@@ -251,6 +254,12 @@ class Injector:
         if not self.active:
             return
         self.n += 1
+        if self.first_hits is not None:
+            key = (id(code), line)
+            if key not in self._seen_lines:
+                self._seen_lines.add(key)
+                if len(self.first_hits) < 20000:
+                    self.first_hits.append(self.n)
         if self.k is not None and self.n == self.k:
             key = (os.path.relpath(os.path.realpath(code.co_filename), self._pkg), line)
             self.active = False
@@ -267,6 +276,7 @@ class Injector:
         """run fn() counting eligible events; returns N (fn's effects are the caller's
         problem: call this in a forked twin)"""
         self.n, self.k, self.fired = 0, None, None
+        self.first_hits, self._seen_lines = [], set()
         self._arm(mode, True)
         self.active = True
         try:
@@ -277,6 +287,8 @@ class Injector:
         finally:
             self.active = False
             self._arm(mode, False)
+        hits, self.first_hits = self.first_hits, None
+        self.last_first_hits = hits
         return self.n
 
     def run(self, mode, fn, k, exc):
@@ -304,7 +316,12 @@ def count_in_twin(injector, mode, fn, timeout=120):
         try:
             os.close(r)
             n = injector.count(mode, fn)
-            os.write(w, str(n).encode())
+            import json as _json
+            data = _json.dumps([n, injector.last_first_hits]).encode()
+            view = memoryview(data)
+            while view:
+                m = os.write(w, view)
+                view = view[m:]
         finally:
             os._exit(0)
     os.close(w)
@@ -322,15 +339,19 @@ def count_in_twin(injector, mode, fn, timeout=120):
         rl, _, _ = select.select([r], [], [], left)
         if not rl:
             continue
-        chunk = os.read(r, 4096)
+        chunk = os.read(r, 1 << 16)
         if not chunk:
             break
         data += chunk
     os.close(r)
     os.waitpid(pid, 0)
     try:
-        return int(data.decode())
+        import json as _json
+        n, hits = _json.loads(data.decode())
+        injector.last_first_hits = hits
+        return int(n)
     except ValueError:
+        injector.last_first_hits = []
         return 0
 
 
